@@ -4593,7 +4593,7 @@ class ResponseFuture(object):
         for host in self.query_plan:
             req_id = self._query(host)
             if req_id is not None:
-                self._req_id = req_id
+                # self._req_id has been set by _query() (before the message went out)
                 return True
             if self.timeout is not None and time.time() - self._start_time > self.timeout:
                 self._on_timeout()
@@ -4622,6 +4622,11 @@ class ResponseFuture(object):
             # TODO get connectTimeout from cluster settings
             connection, request_id = pool.borrow_connection(timeout=2.0)
             self._connection = connection
+            # the stream this future now waits on.  Set before the message goes out: the response
+            # may be processed (and a retry / re-prepare sent from its callback) before send_msg
+            # returns to this thread, and that newer id must not be overwritten afterwards.
+            # Retries on the same host and re-prepares come through here, not through send_request().
+            self._req_id = request_id
             result_meta = self.prepared_statement.result_metadata if self.prepared_statement else []
 
             if cb is None:
@@ -4640,6 +4645,7 @@ class ResponseFuture(object):
             log.debug("Connection for host %s is busy, moving to the next host", host)
             self._errors[host] = exc
             # nothing was sent: hand the borrowed stream id and the in-flight slot back
+            self._req_id = None
             with connection.lock:
                 connection.request_ids.append(request_id)
             pool.return_connection(connection)
@@ -4649,6 +4655,8 @@ class ResponseFuture(object):
             if self._metrics is not None:
                 self._metrics.on_connection_error()
             if connection:
+                # nothing is outstanding on the borrowed stream
+                self._req_id = None
                 pool.return_connection(connection)
 
         return None
